@@ -582,23 +582,25 @@ Proof.
   - destruct Hor as [->|[c [k ->]]]; [exact H2|discriminate].
 Qed.
 
+Ltac log_g I := apply (proj1 (I_log _ I)).
+Ltac log_i I := apply (proj1 (proj2 (I_log _ I))).
+Ltac log_r I := apply (proj2 (proj2 (I_log _ I))).
+Ltac nomv := let H := fresh in intros H; exfalso; congruence.
+
 Lemma attach_failed_inv s h p pc0 s' :
   Inv s -> alive s = true -> nth_error (hs s) h = Some pc0 -> live pc0 = true -> inl_pc pc0 = false ->
   slot s <> Moved -> w s = WRes -> attach_failed h p s = Some s' -> Inv s'.
 Proof.
   intros I Ha Hn Hl Hinl Hm Hw H. unfold attach_failed in H. destruct p as [k|k].
-  - destruct k; try discriminate; inversion H; subst; clear H.
-    all: match goal with |- Inv (set_nfail _ (set_h ?h (HInl ?k) ?s)) =>
-           replace (set_nfail (S (nfail s)) (set_h h (HInl k) s))
-             with (local_upd h (HInl k) (gots s) (iruns s) (S (nfail s)) (readys s) s) by eq_st end.
-    all: eapply inv_local; eauto; try apply (I_log s I); try (intros; congruence);
-         try (simpl; split; [assumption|discriminate]); try (rewrite Hinl; simpl; lia).
+  - assert (Hk : k <> KEvent) by (intros ->; discriminate).
+    assert (s' = local_upd h (HInl k) (gots s) (iruns s) (S (nfail s)) (readys s) s).
+    { destruct k; try congruence; inversion H; subst; eq_st. }
+    subst s'. apply (inv_local s h pc0 _ _ _ _ _ I Hn Hl);
+      [reflexivity|simpl; auto|nomv|log_g I|log_i I|log_r I|rewrite Hinl; simpl; lia].
   - inversion H; subst; clear H.
     replace (set_h h (after_wait k) s) with (local_upd h (after_wait k) (gots s) (iruns s) (nfail s) (readys s) s) by eq_st.
-    eapply inv_local; eauto; try apply (I_log s I); try (intros; congruence).
-    + destruct k; reflexivity.
-    + destruct k; simpl; auto.
-    + rewrite Hinl. destruct k; simpl; lia.
+    apply (inv_local s h pc0 _ _ _ _ _ I Hn Hl);
+      [destruct k; reflexivity|destruct k; simpl; auto|nomv|log_g I|log_i I|log_r I|rewrite Hinl; destruct k; simpl; lia].
 Qed.
 
 Lemma attach_loaded_inv s h p pc0 s' :
@@ -612,8 +614,8 @@ Proof.
   clear H. destruct (w s) eqn:Hw.
   - inversion H'; subst; clear H'.
     replace (set_h h (HAtt p l) s) with (local_upd h (HAtt p l) (gots s) (iruns s) (nfail s) (readys s) s) by eq_st.
-    eapply inv_local; eauto; try apply (I_log s I); try (intros; congruence).
-    rewrite Hinl. simpl. lia.
+    apply (inv_local s h pc0 _ _ _ _ _ I Hn Hl);
+      [reflexivity|simpl; auto|nomv|log_g I|log_i I|log_r I|rewrite Hinl; simpl; lia].
   - eapply attach_failed_inv; eauto.
 Qed.
 
@@ -632,9 +634,9 @@ Proof.
     assert (Hm : slot s <> Moved) by (eapply not_moved_pc; eauto; discriminate).
     replace (set_h h H0 (note_ready true s))
       with (local_upd h H0 (gots s) (iruns s) (nfail s) (readys s ++ [(ready_of true (w s), is_some (rd s))]) s) by eq_st.
-    eapply inv_local; eauto; try apply (I_log s I); try (intros; congruence).
-    + apply Forall_app_one; [apply (I_log s I)|]. simpl fst; simpl snd. apply ready_sound_now; auto.
-    + rewrite Hinl. simpl. lia.
+    apply (inv_local s h pc0 _ _ _ _ _ I Hn Hl);
+      [reflexivity|simpl; auto|nomv|log_g I|log_i I| |rewrite Hinl; simpl; lia].
+    apply Forall_app_one; [log_r I|]. intros Hr. apply ready_sound_now; auto.
   - (* EAwaitL *)
     destruct (pc_of s h) as [[]|] eqn:Hpc; try discriminate. destruct (obs_ok v (w s)); [|discriminate].
     inversion H; subst; clear H. use_pc I Hpc.
@@ -642,11 +644,11 @@ Proof.
     replace (set_h h (if ready_of true (w s) then HRead else H0) (note_ready true s))
       with (local_upd h (if ready_of true (w s) then HRead else H0) (gots s) (iruns s) (nfail s)
                       (readys s ++ [(ready_of true (w s), is_some (rd s))]) s) by eq_st.
-    eapply inv_local; eauto; try apply (I_log s I); try (intros; congruence).
-    + destruct (ready_of true (w s)); reflexivity.
-    + destruct (ready_of true (w s)) eqn:Er; simpl; auto. apply ready_res; exact Er.
-    + apply Forall_app_one; [apply (I_log s I)|]. simpl fst; simpl snd. apply ready_sound_now; auto.
-    + rewrite Hinl. destruct (ready_of true (w s)); simpl; lia.
+    apply (inv_local s h pc0 _ _ _ _ _ I Hn Hl);
+      [destruct (ready_of true (w s)); reflexivity| |nomv|log_g I|log_i I| |
+       rewrite Hinl; destruct (ready_of true (w s)); simpl; lia].
+    + destruct (ready_of true (w s)) eqn:Er; [|exact Logic.I]. apply ready_res in Er. exact Er.
+    + apply Forall_app_one; [log_r I|]. intros Hr. apply ready_sound_now; auto.
   - (* ETouchL *)
     destruct (pc_of s h) as [[]|] eqn:Hpc; try discriminate.
     destruct (obs_ok v (w s) && ready_of true (w s)) eqn:Eb; [|discriminate].
@@ -655,10 +657,8 @@ Proof.
     assert (Hm : slot s <> Moved) by (eapply not_moved_pc; eauto; discriminate).
     replace (set_h h (if mv then HRc else HRead) s)
       with (local_upd h (if mv then HRc else HRead) (gots s) (iruns s) (nfail s) (readys s) s) by eq_st.
-    eapply inv_local; eauto; try apply (I_log s I); try (intros; congruence).
-    + destruct mv; reflexivity.
-    + destruct mv; simpl; auto.
-    + rewrite Hinl. destruct mv; simpl; lia.
+    apply (inv_local s h pc0 _ _ _ _ _ I Hn Hl);
+      [destruct mv; reflexivity|destruct mv; exact Er|nomv|log_g I|log_i I|log_r I|rewrite Hinl; destruct mv; simpl; lia].
   - (* ERcH *)
     destruct (pc_of s h) as [[]|] eqn:Hpc; try discriminate.
     destruct (Nat.eqb n (refs s)) eqn:En; [|discriminate]. apply Nat.eqb_eq in En.
@@ -666,10 +666,10 @@ Proof.
     assert (Hm : slot s <> Moved) by (eapply not_moved_pc; eauto; discriminate).
     replace (set_h h (HOut (Nat.eqb (refs s) get_move_when_ref_eq)) s)
       with (local_upd h (HOut (Nat.eqb (refs s) get_move_when_ref_eq)) (gots s) (iruns s) (nfail s) (readys s) s) by eq_st.
-    eapply inv_local; eauto; try apply (I_log s I); try (intros; congruence).
-    + simpl in Hok. destruct (Nat.eqb (refs s) get_move_when_ref_eq) eqn:E1; simpl; auto.
-      apply Nat.eqb_eq in E1. split; auto.
-    + rewrite Hinl. simpl. lia.
+    apply (inv_local s h pc0 _ _ _ _ _ I Hn Hl);
+      [reflexivity| |nomv|log_g I|log_i I|log_r I|rewrite Hinl; simpl; lia].
+    simpl in Hok. destruct (Nat.eqb (refs s) get_move_when_ref_eq) eqn:E1; simpl; auto.
+    apply Nat.eqb_eq in E1. split; auto.
   - (* EAttL *)
     destruct (pc_of s h) as [[]|] eqn:Hpc; try discriminate. destruct (obs_ok v (w s)); [|discriminate].
     use_pc I Hpc.
@@ -694,8 +694,9 @@ Proof.
     destruct (rd_ok s I Ha Hw Hm) as [R1 R2].
     replace (set_h h H0 (set_iruns (iruns s ++ [rd s]) s))
       with (local_upd h H0 (gots s) (iruns s ++ [rd s]) (nfail s) (readys s) s) by eq_st.
-    eapply inv_local; eauto; try apply (I_log s I); try (intros; congruence).
-    + apply Forall_app_one; [apply (I_log s I)|]. split; congruence.
+    apply (inv_local s h pc0 _ _ _ _ _ I Hn Hl);
+      [reflexivity|exact Logic.I|nomv|log_g I| |log_r I|].
+    + apply Forall_app_one; [log_i I|]. split; congruence.
     + rewrite Hinl. rewrite app_length. destruct Hk; subst; simpl; lia.
   - (* EConnL *)
     destruct (pc_of s h) as [[]|] eqn:Hpc; try discriminate. destruct k; try discriminate.
@@ -703,7 +704,72 @@ Proof.
     inversion H; subst; clear H. use_pc I Hpc.
     assert (Hm : slot s <> Moved) by (eapply not_moved_pc; eauto; discriminate).
     replace (set_h h HConnR s) with (local_upd h HConnR (gots s) (iruns s) (nfail s) (readys s) s) by eq_st.
-    eapply inv_local; eauto; try apply (I_log s I); try (intros; congruence).
-    + simpl in Hok. simpl. tauto.
-    + rewrite Hinl. simpl. lia.
+    apply (inv_local s h pc0 _ _ _ _ _ I Hn Hl);
+      [reflexivity|simpl in Hok; simpl; tauto|nomv|log_g I|log_i I|log_r I|rewrite Hinl; simpl; lia].
+Qed.
+
+(* ---- DecRef / IncRef ------------------------------------------------------------------------------------------------ *)
+
+Lemma dec_w s : w (dec s) = w s. Proof. unfold dec. destruct (refs s) as [|n]; [reflexivity|destruct (Nat.eqb n 0); reflexivity]. Qed.
+Lemma dec_slot s : slot (dec s) = slot s. Proof. unfold dec. destruct (refs s) as [|n]; [reflexivity|destruct (Nat.eqb n 0); reflexivity]. Qed.
+Lemma dec_val s : val (dec s) = val s. Proof. unfold dec. destruct (refs s) as [|n]; [reflexivity|destruct (Nat.eqb n 0); reflexivity]. Qed.
+Lemma dec_fpc s : fpc (dec s) = fpc s. Proof. unfold dec. destruct (refs s) as [|n]; [reflexivity|destruct (Nat.eqb n 0); reflexivity]. Qed.
+Lemma dec_hs s : hs (dec s) = hs s. Proof. unfold dec. destruct (refs s) as [|n]; [reflexivity|destruct (Nat.eqb n 0); reflexivity]. Qed.
+Lemma dec_cs s : cs (dec s) = cs s. Proof. unfold dec. destruct (refs s) as [|n]; [reflexivity|destruct (Nat.eqb n 0); reflexivity]. Qed.
+Lemma dec_gots s : gots (dec s) = gots s. Proof. unfold dec. destruct (refs s) as [|n]; [reflexivity|destruct (Nat.eqb n 0); reflexivity]. Qed.
+Lemma dec_iruns s : iruns (dec s) = iruns s. Proof. unfold dec. destruct (refs s) as [|n]; [reflexivity|destruct (Nat.eqb n 0); reflexivity]. Qed.
+Lemma dec_nfail s : nfail (dec s) = nfail s. Proof. unfold dec. destruct (refs s) as [|n]; [reflexivity|destruct (Nat.eqb n 0); reflexivity]. Qed.
+Lemma dec_readys s : readys (dec s) = readys s. Proof. unfold dec. destruct (refs s) as [|n]; [reflexivity|destruct (Nat.eqb n 0); reflexivity]. Qed.
+Lemma dec_refs s : refs (dec s) = refs s - 1.
+Proof. unfold dec. destruct (refs s) as [|n] eqn:E; [simpl; rewrite E; reflexivity|destruct (Nat.eqb n 0); simpl; lia]. Qed.
+
+Ltac decp := rewrite ?dec_w, ?dec_slot, ?dec_val, ?dec_fpc, ?dec_hs, ?dec_cs, ?dec_gots, ?dec_iruns, ?dec_nfail,
+                     ?dec_readys, ?dec_refs in *.
+
+(* the accounting after a DecRef by somebody who held a reference *)
+Lemma acct_dec s f' hs' cs' :
+  AcctI s -> alive s = true ->
+  refs s = S (prom f' + count live hs' + count held cs') ->
+  AcctI (set_fpc f' (set_hs hs' (set_cs cs' (dec s)))).
+Proof.
+  intros [A1 [A2 [A3 [A4 [A5 A6]]]]] Ha Hr. unfold AcctI, dec. rewrite Hr.
+  remember (prom f' + count live hs' + count held cs') as n.
+  rewrite Ha in A3. destruct (Nat.eqb n 0) eqn:E; sf.
+  - apply Nat.eqb_eq in E. repeat split; auto; try lia. rewrite E. reflexivity.
+  - apply Nat.eqb_neq in E. repeat split; auto; try lia.
+    + rewrite Ha. destruct n; [lia|reflexivity].
+    + rewrite Ha. exact A3.
+Qed.
+
+Lemma acct_inc s f' hs' cs' :
+  AcctI s -> alive s = true ->
+  S (refs s) = prom f' + count live hs' + count held cs' ->
+  AcctI (set_fpc f' (set_hs hs' (set_cs cs' (inc s)))).
+Proof.
+  intros [A1 [A2 [A3 [A4 [A5 A6]]]]] Ha Hr. unfold AcctI. sf. repeat split; auto.
+Qed.
+
+Lemma acct_same s f' hs' cs' :
+  AcctI s -> prom (fpc s) + count live (hs s) + count held (cs s) = prom f' + count live hs' + count held cs' ->
+  AcctI (set_fpc f' (set_hs hs' (set_cs cs' s))).
+Proof.
+  intros [A1 [A2 [A3 [A4 [A5 A6]]]]] Hr. unfold AcctI. sf. repeat split; auto. lia.
+Qed.
+
+(* everything that is not registered, not being fired and holds no reference is done *)
+Lemma done_unless s c e : Inv s -> nth_error (cs s) c = Some e ->
+  ~ In c (pend s) -> cur s <> Some c -> held e = false -> cst e = CDone.
+Proof.
+  intros I Hn Hp Hc Hh. destruct (cst e) eqn:E; auto.
+  - exfalso. apply Hp. apply (I_pend s I). unfold cst_at. rewrite Hn, E. reflexivity.
+  - exfalso. apply Hc. apply (I_cur s I). unfold fir_at. rewrite Hn, E. reflexivity.
+  - exfalso. apply Hc. apply (I_cur s I). unfold fir_at. rewrite Hn, E. reflexivity.
+  - unfold held in Hh. rewrite E in Hh. discriminate.
+  - unfold held in Hh. rewrite E in Hh. discriminate.
+Qed.
+
+Lemma pend_lt s c : Inv s -> In c (pend s) -> c < length (cs s).
+Proof.
+  intros I H. apply (I_pend s I) in H. unfold cst_at in H. destruct (nth_error (cs s) c) eqn:E; [|discriminate].
+  eapply nth_some_lt; eauto.
 Qed.
